@@ -19,7 +19,7 @@ def run(res, tier, seed, replay):
     histlib.check_histories(res, "c03", 0, seed + 34, "ranges", extra_lines=mo)
     import arenalib, random
     rr = random.Random(seed + 33)
-    modes = ["neigh"] * 6 + ["straddle"] * 6 + ["alias"] * 6
+    modes = ["neigh"] * 6 + ["straddle"] * 6 + ["alias"] * 6 + ["foreign_lo"] * 4 + ["packed"] * 3 + ["page0"] * 2
     if tier == "thorough": modes = modes * 20
     histlib.check_histories(res, "c03", 0, seed + 33, "ranges", extra_lines=[arenalib.gen(rr, f"a{i}", mode=m) for i, m in enumerate(modes)])
     # crowded lifetimes: 9-24 installations alive in one injector
